@@ -473,7 +473,8 @@ impl<'a, 'tcx> H<'a, 'tcx> {
                 if matches!(
                     e.kind,
                     ExprKind::Call(..) | ExprKind::MethodCall(..) | ExprKind::Match(..) | ExprKind::If(..)
-                ) {
+                ) || matches!(e.kind, ExprKind::Block(b, _) if !matches!(b.rules, hir::BlockCheckMode::DefaultBlock))
+                {
                     o.push(("mac", J::s(m)));
                 }
             }
